@@ -71,7 +71,12 @@ TEXT = {'C11': {'technique': 'Lean 4 proof by mutual structural induction over t
                   'corollaries C10_layout_irrelevant (spaces, tabs, comments, repeated line breaks never change the token stream), C10_break_after_cannot_end, '
                   'C10_break_before_cannot_start, C10_linebreak_is_separator and the scanner-level form C10_render_scan. The law is also evaluated on the '
                   'implementation for random token lists with every gap filled by spaces, tabs, CR, NBSP, comments (empty, multi-byte, at EOF) and line '
-                  'breaks.',
+                  'breaks. **Parser level: the parser model never looks at the KIND of a terminator — for token arrays that agree up to the spelling of '
+                  'terminators (`;` vs line break) the parser, its memo table and counters, re-association, resolution and the definition-order check return '
+                  'identical results (C10_terminator_kind_irrelevant, C10_terminator_kind_irrelevant_everywhere, C10_parse_terminator_irrelevant, '
+                  'C10_respell_terminators); with the tokenizer law, a separating line break and a `;` at the same place give token streams that differ in '
+                  'that one terminator only and parse alike (C10_semicolon_vs_linebreak, C10_semicolon_vs_linebreak_parse). In parser.rs the terminator type '
+                  'is inspected only inside two error-message closures.**',
          'note': 'Trusted: as C09. The tables are regenerated from the source on every run, so a moved variant re-decides the obligations.'},
  'C01': {'technique': 'Lean 4 proof of the stuck-term classification (sound and complete w.r.t. the model evaluator) and kernel-evaluated negation witnesses '
                       'on the model type checker; checker and evaluator models tied to type_checker.rs/unifier.rs/normalizer.rs/evaluator.rs by differential '
@@ -318,7 +323,13 @@ TEXT = {'C11': {'technique': 'Lean 4 proof by mutual structural induction over t
                   '(C19_reorder_conv, C19_reorder_eval, C19_reorder_result). Redundant parentheses at parser level: parentheses around the whole program, or '
                   'around an operand the re-association pass keeps in place, change nothing but ranges and group flags through the three passes and resolution '
                   '(C19_paren_whole, C19_paren_whole_pass, C19_paren_operand, C19_paren_operand_applies).** Typing invariance of naming and of reordering is '
-                  'not proved (searched).',
+                  'not proved (searched). **Source-level renaming (Lemmas/ResolveRename.lean): for a renaming that is injective on the names of the program '
+                  'and of the context and respects the placeholder, resolving the renamed program commutes with resolving the original — same success or '
+                  'failure, same indices, hole ids and structure, the same diagnostics at the same ranges, the renamed final context (C19_resolve_rename, '
+                  'C19_resolve_rename_erased); so do the definition-order check (C19_rename_check_definitions) and everything after the parse phase '
+                  "(C19_rename_finish_parse); hence, names erased, the independent checker's verdict and type and every evaluation result coincide "
+                  '(C19_rename_pipeline). A renaming that captures (`y ↦ x` in `x => y => x`) or maps to `_` changes the outcome (kernel-checked witnesses, '
+                  'same on the binary).**',
          'note': 'Trusted: Lean kernel, standard axioms, the rewrite implementations in harness/src/prog.rs (each is validated on the unchanged tree).'},
  'C07': {'technique': 'Lean model of the whole packrat parser incl. error recovery and the three re-association passes (zero differences on 1.7M ops); Lean '
                       'proofs: every token consumed, left association of + - and * / chains of any length, parenthesised chains opaque, passes act on disjoint '
